@@ -54,19 +54,16 @@ func (C10) Generate(r *core.Rand, tier string, idx int) *core.Scenario {
 	sc := &core.Scenario{Property: "C10", Cfg: map[string]int{}}
 	sc.Cfg["bufsz"] = r.Intn(len(c10BufSizes))
 	sc.Cfg["passes"] = 1 + r.Intn(3)
-	// Input classes that hit known deviations of the parser are confined to a
-	// minority of runs so that they cannot mask anything else.
-	if r.P(1, 16) {
-		sc.Cfg["lit0"] = 1
-	}
+	// Input classes that hit an open deviation of the parser ('[' in atoms) are confined
+	// to a minority of runs so that they cannot mask anything else; the classes whose
+	// defects were repaired ({0}, LIST pattern as literal, tag "done") are on in half of the runs.
 	if r.P(1, 16) {
 		sc.Cfg["lbracket"] = 1
 	}
-	if r.P(1, 32) {
-		sc.Cfg["donetag"] = 1
-	}
-	if r.P(1, 16) {
-		sc.Cfg["listlit"] = 1
+	for _, k := range []string{"lit0", "donetag", "listlit"} {
+		if r.P(1, 2) {
+			sc.Cfg[k] = 1
+		}
 	}
 	kn := c10KnobsOf(sc)
 	for i := 0; i < c10BatchSize; i++ {
